@@ -10,6 +10,8 @@ enum Kind {
     HReq,
     HResp,
     FStream,
+    HeadFramesC, // connector side: CONNECT response head + inline frames
+    HeadFramesL, // listener side: CONNECT request head + inline frames
     WSReq, // client side of the SOCKS5 negotiation reads the server's replies
 }
 
@@ -35,6 +37,8 @@ async fn run_one(out: &mut Out, k: Kind, segs: &[Vec<u8>], tbl: &str) -> String 
             let r = op_fstream(segs).await;
             (r.0, r.1)
         }
+        Kind::HeadFramesC => op_h11cf(&TargetAddress::DomainPort("example.com".into(), 53), segs).await,
+        Kind::HeadFramesL => op_hhsf(segs).await,
         Kind::WSReq => {
             let t = TargetAddress::DomainPort("example.com".into(), 443);
             let r = op_wsreq(5, 1, &t, &Some(("user".into(), "pw".into())), segs).await;
@@ -86,6 +90,15 @@ async fn check_message(out: &mut Out, rng: &mut Rng, k: Kind, msg: &[u8], tail: 
         out.stat("truncations");
         let bad = match k {
             Kind::FStream => !(r.ends_with("eof") || r.ends_with("err")) || r.matches('[').count() > full_frames_before(msg, cut),
+            Kind::HeadFramesC | Kind::HeadFramesL => {
+                // a truncated head is an error; a truncated frame part yields only the complete frames, then eof / err
+                let head = msg.windows(4).position(|w| w == b"\r\n\r\n").map(|p| p + 4).unwrap_or(msg.len());
+                if cut < head {
+                    r.starts_with("ok")
+                } else {
+                    !(r.ends_with("eof") || r.ends_with("err")) || r.matches('[').count() > full_frames_before(&msg[head..], cut - head)
+                }
+            }
             Kind::WSReq => r.starts_with("ok"),
             _ => r.starts_with("ok"),
         };
@@ -189,6 +202,54 @@ pub async fn run(out: &mut Out) {
             msg.extend_from_slice(&rpfm_bytes(rng.next() as u32, &a, &body));
         }
         check_message(out, &mut rng, Kind::FStream, &msg, &[], "tbl=-", 0).await;
+    }
+    // --- UDP over CONNECT, inline channel: the head and the first frames share segments (both sides)
+    for i in 0..(if thorough { 40 } else { 8 }) {
+        let nf = rng.range(1, 3);
+        let mut frames = vec![];
+        for _ in 0..nf {
+            let a = if rng.chance(1, 4) { None } else { Some(gen_plain_target(&mut rng)) };
+            let bl = rng.range(0, 6);
+            let body = rng.bytes(bl);
+            frames.extend_from_slice(&rpfm_bytes(rng.next() as u32, &a, &body));
+        }
+        let sid = rng.below(1000);
+        let mut c = format!("HTTP/1.1 200 Connection established\r\nSession-Id: {}\r\n\r\n", sid).into_bytes();
+        c.extend_from_slice(&frames);
+        // exhaustive single cuts (every position) are part of `all_cuts` only for short messages: do the single cuts here
+        let reference = run_one(out, Kind::HeadFramesC, &[c.clone()], "tbl=-").await;
+        if !reference.starts_with("ok [") {
+            out.oracle_fail("segmentation-dependent", &format!("HeadFramesC: head and frames in one segment give `{}`", trunc(&reference)));
+        }
+        for cut in 1..c.len() {
+            if !thorough && i > 1 && cut % 5 != 0 {
+                continue;
+            }
+            let r = run_one(out, Kind::HeadFramesC, &[c[..cut].to_vec(), c[cut..].to_vec()], "tbl=-").await;
+            out.stat("head_frames_cuts");
+            if r != reference {
+                out.oracle_fail("segmentation-dependent", &format!("HeadFramesC: one segment gives `{}`, cut at {} gives `{}`", trunc(&reference), cut, trunc(&r)));
+            }
+        }
+        check_message(out, &mut rng, Kind::HeadFramesC, &c, &[], "tbl=-", 0).await;
+        let t = gen_plain_target(&mut rng);
+        let mut l = format!("CONNECT {} HTTP/1.1\r\nHost: x\r\nProxy-Protocol: udp\r\nProxy-Channel: inline\r\n\r\n", t).into_bytes();
+        l.extend_from_slice(&frames);
+        let reference = run_one(out, Kind::HeadFramesL, &[l.clone()], "tbl=-").await;
+        if !reference.starts_with("ok [") {
+            out.oracle_fail("segmentation-dependent", &format!("HeadFramesL: head and frames in one segment give `{}`", trunc(&reference)));
+        }
+        for cut in 1..l.len() {
+            if !thorough && i > 1 && cut % 5 != 0 {
+                continue;
+            }
+            let r = run_one(out, Kind::HeadFramesL, &[l[..cut].to_vec(), l[cut..].to_vec()], "tbl=-").await;
+            out.stat("head_frames_cuts");
+            if r != reference {
+                out.oracle_fail("segmentation-dependent", &format!("HeadFramesL: one segment gives `{}`, cut at {} gives `{}`", trunc(&reference), cut, trunc(&r)));
+            }
+        }
+        check_message(out, &mut rng, Kind::HeadFramesL, &l, &[], "tbl=-", 0).await;
     }
     // a short frame stream, exhaustively segmented (12-byte header + empty attr + 1 byte body = 13 bytes)
     let msg = rpfm_bytes(7, &None, &[0x55]);
